@@ -90,6 +90,8 @@ Definition c14_ok (t : tr14) (o : aop) (r : ares) (d : deliveries) : bool :=
       | AClose ns, ABool b => Bool.eqb b (get_h t ns <=? 1)
       | AClose _, _ => false
       | AGetState ns, AState s _ h => (h =? get_h t ns) && Bool.eqb s (get_sync t ns)
+      (* a document that another handle still holds stays usable: dropping it is refused *)
+      | ADrop ns, AOk => get_h t ns <=? 1
       | _, _ => true
       end).
 Definition tr14_step (t : tr14) (o : aop) (r : ares) : tr14 :=
